@@ -204,7 +204,7 @@ A NEW static, or a thread-local turned into a static, fails the translator: the 
 cover everything compiling threads share. -/
 theorem C19_shared_state_kinds :
     ∀ e ∈ Mimium.Gen.sharedState, e.2.2 ∈ ["session-globals", "session-globals-pointer", "macro-file-environment",
-      "per-thread-counter", "numbering-only-counter", "immutable", "diagnostic-file-cache"] := by decide
+      "per-thread-counter", "per-thread-scratch", "numbering-only-counter", "immutable", "diagnostic-file-cache"] := by decide
 
 end Mimium.SessionLock
 
